@@ -216,13 +216,28 @@ def Layer.rebuiltEntry (disp : Bool) (ng : Val × Glyph) : Val × Glyph :=
 
 def Glyph.rebuildError (g : Glyph) : Option String := ((Reg.ok []).addAll g.regIds).error
 
+/-- the unicode-data object of a layer along `set_glyphs`: `seen` = the glyphs already in the layer, `c` = the
+object so far; every further glyph is inserted (`cacheInsert`) and announced, and at the scheduled announcements
+(with a dispatcher) the observer's read builds the object if there is none -/
+def cacheAlong (disp : Bool) (peekAt : List Nat) :
+    List (Val × Glyph) → Option (List (Val × Val)) → List (Val × Glyph) → Option (List (Val × Val))
+  | _, c, [] => c
+  | seen, c, ng :: rest =>
+    let c1 := cacheInsert c ng.1 ng.2.unicodes
+    let c2 := if disp && peekAt.contains (seen ++ [ng]).length then some (c1.getD (cmapOfGlyphs (seen ++ [ng]))) else c1
+    cacheAlong disp peekAt (seen ++ [ng]) c2 rest
+
 def Layer.rebuiltFrom (ly t : Layer) : Layer :=
   { t with
     lib := { items := ly.lib.items, parent := true, observed := t.disp }
     tempLib := { items := ly.tempLib.items, parent := true, observed := false }
     color := ly.color
     glyphs := ly.glyphs.map (Layer.rebuiltEntry t.disp)
-    err := ly.glyphs.foldl (fun e ng => orErr e ng.2.rebuildError) none }
+    err := ly.glyphs.foldl (fun e ng => orErr e ng.2.rebuildError) none
+    ucache := cacheAlong t.disp t.peekAt [] t.ucache (ly.glyphs.map (Layer.rebuiltEntry t.disp)) }
+
+/-- the unicode-data object of a layer says what the glyphs say (or does not exist yet) -/
+def Layer.CacheOK (ly : Layer) : Prop := ly.ucache = none ∨ ly.ucache = some (cmapOfGlyphs ly.glyphs)
 
 structure Layer.WF (ly : Layer) : Prop where
   lib : DictWF ly.lib.items
@@ -246,16 +261,17 @@ structure LayerSet.Fresh (t : LayerSet) : Prop where
   err : t.err = none
 
 /-- the layer `newLayer(name)` makes -/
-def LayerSet.newLayer (disp : Bool) (n : Val) : Layer := { name := n, parent := true, observed := disp, disp := disp }
+def LayerSet.newLayer (disp : Bool) (peekAt : List Nat) (n : Val) : Layer :=
+  { name := n, parent := true, observed := disp, disp := disp, peekAt := peekAt }
 
-def LayerSet.rebuiltEntry (disp : Bool) (nl : Val × Layer) : Val × Layer :=
-  (nl.1, Layer.rebuiltFrom nl.2 (LayerSet.newLayer disp nl.1))
+def LayerSet.rebuiltEntry (disp : Bool) (peekAt : List Nat) (nl : Val × Layer) : Val × Layer :=
+  (nl.1, Layer.rebuiltFrom nl.2 (LayerSet.newLayer disp peekAt nl.1))
 
 def LayerSet.rebuiltFrom (ls t : LayerSet) : LayerSet :=
   { t with
-    layers := ls.layers.map (LayerSet.rebuiltEntry t.disp)
+    layers := ls.layers.map (LayerSet.rebuiltEntry t.disp t.peekAt)
     default := if ls.default ∈ AL.keys ls.layers then ls.default else pyNone
-    err := ls.layers.foldl (fun e nl => orErr e (LayerSet.rebuiltEntry t.disp nl).2.err) none }
+    err := ls.layers.foldl (fun e nl => orErr e (LayerSet.rebuiltEntry t.disp t.peekAt nl).2.err) none }
 
 structure LayerSet.WF (ls : LayerSet) : Prop where
   names : (AL.keys ls.layers).Nodup
@@ -285,7 +301,7 @@ def Font.rebuiltFrom (f t : Font) : Font :=
     lib := { items := f.lib.items, parent := true, observed := true }
     tempLib := { items := f.tempLib.items, parent := true, observed := t.tempLib.observed }
     info := Info.deser (Info.ser none none f.info) (wired t.info)
-    layers := LayerSet.rebuiltFrom f.layers { parent := true, observed := true, disp := true }
+    layers := LayerSet.rebuiltFrom f.layers { parent := true, observed := true, disp := true, peekAt := t.layers.peekAt }
     guidelines := f.guidelines.map (fun a => { Guideline.build a.items with observed := true })
     reg := (Reg.ok []).addAll (f.guidelines.map dictIdent) }
 
